@@ -296,9 +296,23 @@ def sec_histories(chk):
         "makeField": lambda a: ift.makeField(dom, a),
         "MultiField.from_raw['k']": lambda a: ift.MultiField.from_raw(ift.MultiDomain.make({"k": dom}), {"k": a})["k"],
     }
-    for cname, ctor in ctors.items():
-        src = rng.normal(size=4)
-        f = ctor(src)
+    class _Sub(np.ndarray):
+        """a user-defined ndarray subclass"""
+
+    def kinds():
+        """source arrays of every array type a user can hand over: plain ndarray and ndarray subclasses (views of the same kind of buffer)"""
+        yield "ndarray", lambda a: a
+        yield "ndarray subclass", lambda a: a.view(_Sub)
+        yield "masked array", lambda a: np.ma.masked_array(a)
+        yield "np.memmap-like recarray view", lambda a: a.view(np.recarray)
+    runs = [(f"{cname} [{kname} source]", ctor, mk) for cname, ctor in ctors.items() for kname, mk in kinds() if kname == "ndarray" or cname in ("Field(domain, ndarray)", "makeField")]
+    for cname, ctor, mk in runs:
+        src = mk(rng.normal(size=4))
+        try:
+            f = ctor(src)
+        except Exception as e:  # noqa: BLE001
+            samples.append(dict(constructor=cname, outcome=f"refused: {type(e).__name__}")) if len(samples) < 6 else None
+            continue
         D = ift.makeOp(f)
         probe = ift.full(dom, 1.)
         for wname, w in writers(src, f):
@@ -313,13 +327,13 @@ def sec_histories(chk):
                 fails.append(dict(case=f"{cname}; then {wname}", detail=f"write attempt {res}: field bytes changed={changed}, "
                                   f"DiagonalOperator built from the field changed={op_changed}"))
                 # restore for the next attempt
-                src = rng.normal(size=4)
+                src = mk(rng.normal(size=4))
                 f = ctor(src)
                 D = ift.makeOp(f)
             elif len(samples) < 3:
                 samples.append(dict(constructor=cname, write=wname, outcome=res))
     chk.bounded("no write attempt after construction changes a field's bytes or the action of an operator built from it",
-                bound="5 constructors x 18 write attempts (source array, raw/val/numpy handles, views, in-place operators, out=)",
+                bound="5 constructors (plain ndarray sources) + 2 constructors x 3 ndarray-subclass sources, each x 18 write attempts (source array, raw/val/numpy handles, views, in-place operators, out=)",
                 cases=n, nontrivial=nontriv, failures=fails, samples=samples, kind="B-runtime")
 
 
